@@ -66,6 +66,11 @@ def shapes(tier):
         [P("x"), P("k", "K", typeann=True)],
         [P("k", "K")],
         [P("k", "K", default=True)],
+        # class-valued positions after / before strictly positional ones
+        [P("x", "O"), P("t", typeann=True)],
+        [P("x", "O", typeann=True), P("y")],
+        [P("x", "O"), P("y", "O", typeann=True), P("z", default=True)],
+        [P("x", "O"), P("y"), P("t", typeann=True, default=True)],
         # parameter names that collide with names used inside the emitted code
         [P("method")],
         [P("x"), P("method", "K")],
@@ -86,9 +91,14 @@ def shapes(tier):
         ([P("x", default=True)], [P("x"), P("y")]),
         ([], [P("x")]),
         ([], [P("x", default=True)]),
+        ([], [P("k", "K")]),  # a parameterless method, then one that requires a keyword
+        ([P("k", "K")], []),
+        ([], [P("x"), P("k", "K", default=True)]),
         ([P("x", typeann=True)], [P("x")]),
         ([P("x"), P("y", typeann=True)], [P("x"), P("y")]),
         ([P("x", "O")], [P("x", "O"), P("y", "O", default=True)]),
+        ([P("a"), P("t", typeann=True)], [P("b"), P("t", typeann=True)]),  # first position strictly positional by naming
+        ([P("a", typeann=True), P("y")], [P("b", typeann=True), P("y")]),
         ([P("x"), P("y", default=True), P("k", "K", default=True)], [P("x"), P("y"), P("k", "K")]),
     ]
     for a, b in pairs:
